@@ -496,8 +496,18 @@ static bool has_dangling_colon(const std::string &doc) {
 }
 static bool has_dangling_qid(const std::string &doc) {
   for (auto &l : eol_split(doc)) {
-    size_t i = l.find("qid:");
-    if (i != std::string::npos && (i + 4 >= l.size() || !is_digitchar(l[i + 4]))) return true;
+    for (size_t i = l.find("qid:"); i != std::string::npos; i = l.find("qid:", i + 1))
+      if (i + 4 >= l.size() || !is_digitchar(l[i + 4])) return true;
+  }
+  return false;
+}
+// a tab (not only spaces) between label:weight and "qid:"
+static bool has_tab_before_qid(const std::string &doc) {
+  for (size_t i = doc.find("qid:"); i != std::string::npos; i = doc.find("qid:", i + 1)) {
+    size_t k = i;
+    bool tab = false;
+    while (k > 0 && (doc[k - 1] == ' ' || doc[k - 1] == '\t')) { if (doc[k - 1] == '\t') tab = true; --k; }
+    if (tab) return true;
   }
   return false;
 }
@@ -539,6 +549,7 @@ static std::string classify(const Fmt &f, const std::string &doc) {
   if (has_dangling_colon(doc)) return "dangling-colon-reads-next-line";
   if (f.kind == "svm" && has_dangling_qid(doc)) return "dangling-qid-reads-next-line";
   if (f.kind == "svm" && has_later_comment_line(doc)) return "comment-line-not-first-in-block";
+  if (f.kind == "svm" && has_tab_before_qid(doc)) return "tab-before-qid";
   return "none";
 }
 
@@ -1151,14 +1162,14 @@ int main(int argc, char **argv) {
       }
     }
   } else {
-    size_t maxlen = R.thorough() ? 5 : 3;
+    size_t maxlen = R.thorough() ? 4 : 3;
     gen_exhaustive(G, "svm:32:0", kSvmTokens, sizeof(kSvmTokens) / sizeof(*kSvmTokens), maxlen, "");
     gen_exhaustive(G, "svm:32:1", kSvmTokens, sizeof(kSvmTokens) / sizeof(*kSvmTokens), maxlen - 1, "\n1 1:1\n");
     gen_exhaustive(G, "fm:32:0", kFmTokens, sizeof(kFmTokens) / sizeof(*kFmTokens), maxlen, "");
     gen_exhaustive(G, "fm:64:1", kFmTokens, sizeof(kFmTokens) / sizeof(*kFmTokens), maxlen - 1, "\n1 1:1:1\n");
     gen_exhaustive(G, "csv:32:f32:-1:-1:44", kCsvTokens, sizeof(kCsvTokens) / sizeof(*kCsvTokens), maxlen, "");
     gen_exhaustive(G, "csv:32:i32:0:-1:44", kCsvTokens, sizeof(kCsvTokens) / sizeof(*kCsvTokens), maxlen - 1, "\n1,2\n");
-    size_t n = R.thorough() ? 9000 : 700;
+    size_t n = R.thorough() ? 6000 : 700;
     for (size_t i = 0; i < n; ++i) {
       static const char *kinds[] = {"svm", "fm", "csv"};
       gen_random_doc(G, kinds[i % 3], i % 5 == 0 ? 3 : 2);
